@@ -33,3 +33,16 @@ Proof.
   exists wcfg, (with_ch0 w12_prl). last_step wcfg w12_prl.
   eexists. split; [exact Hin|]. repeat split.
 Qed.
+
+(* ---------------------------------------------------------------- *)
+(* non-vacuity: histories in which OFFERs and ACKs do occur (home /28, netfilter /29, two
+   clients, the second one captured and therefore served from the netfilter pool) *)
+Definition wlive : list op :=
+  [ODiscover 0 (dmsg0 c1 1 None None); ORequest 0 (dmsg0 c1 1 (Some 3232235522) us);
+   OCapture c2; ODiscover 0 (dmsg0 c2 2 (Some 3232235532) None); ORequest 0 (dmsg0 c2 2 (Some 3232235532) us);
+   ORequest 0 (mkMsg c1 7 3232235522 None None None false 3232235522 [])].
+Lemma live_example :
+  map (fun t => match t_reply t with Some r => (r_type r, r_yi r) | None => (RNak, 0) end)
+      (trace wcfg (init wcfg) (with_ch0 wlive))
+  = [(ROffer, 3232235522); (RAck, 3232235522); (RNak, 0); (ROffer, 3232235532); (RAck, 3232235532); (RAck, 3232235522)].
+Proof. vm_compute. reflexivity. Qed.
